@@ -517,23 +517,23 @@ func menuCases() []Case {
 		if !strings.Contains(d, "func main()") {
 			src = d + "\n\nfunc main() {}"
 		}
-		cs = append(cs, Case{ID: fmt.Sprintf("cycle-run/%02d:%s", i, oneLine(d)), Kind: kindRun, Src: "package main\n\n" + src + "\n", Gas: 50_000_000})
-		cs = append(cs, Case{ID: fmt.Sprintf("cycle-addpkg/%02d:%s", i, oneLine(d)), Kind: kindAddPkg, Src: "package pkg\n\n" + d + "\n", Gas: 50_000_000})
+		cs = append(cs, Case{ID: fmt.Sprintf("cycle-run/%02d:%s", i, oneLine(d)), Kind: kindRun, Src: "package main\n\n" + src + "\n", Gas: 20_000_000})
+		cs = append(cs, Case{ID: fmt.Sprintf("cycle-addpkg/%02d:%s", i, oneLine(d)), Kind: kindAddPkg, Src: "package pkg\n\n" + d + "\n", Gas: 20_000_000})
 		// the same declarations used from main
-		cs = append(cs, Case{ID: fmt.Sprintf("cycle-used/%02d:%s", i, oneLine(d)), Kind: kindRun, Src: "package main\n\n" + strings.ReplaceAll(d, "func main() {}", "") + "\n\nfunc main() {\n\tvar v struct{}\n\t_ = v\n\tprintln(\"ok\")\n}\n", Gas: 50_000_000})
+		cs = append(cs, Case{ID: fmt.Sprintf("cycle-used/%02d:%s", i, oneLine(d)), Kind: kindRun, Src: "package main\n\n" + strings.ReplaceAll(d, "func main() {}", "") + "\n\nfunc main() {\n\tvar v struct{}\n\t_ = v\n\tprintln(\"ok\")\n}\n", Gas: 20_000_000})
 	}
 	for i, b := range resourceBodies {
 		if strings.HasPrefix(b, "import ") || strings.HasPrefix(b, "var x = unsafe") {
-			cs = append(cs, Case{ID: fmt.Sprintf("resource/%02d:%s", i, oneLine(b)), Kind: kindRun, Src: "package main\n\n" + b + "\n\nfunc main() {}\n", Gas: 50_000_000})
+			cs = append(cs, Case{ID: fmt.Sprintf("resource/%02d:%s", i, oneLine(b)), Kind: kindRun, Src: "package main\n\n" + b + "\n\nfunc main() {}\n", Gas: 20_000_000})
 			continue
 		}
-		cs = append(cs, Case{ID: fmt.Sprintf("resource/%02d:%s", i, oneLine(b)), Kind: kindRun, Src: mainWrap("", b), Gas: 50_000_000})
+		cs = append(cs, Case{ID: fmt.Sprintf("resource/%02d:%s", i, oneLine(b)), Kind: kindRun, Src: mainWrap("", b), Gas: 20_000_000})
 		if strings.Contains(b, "append(") || strings.Contains(b, "make(") || strings.Contains(b, "s += s") || strings.Contains(b, "1 << 2") || strings.Contains(b, "1 << 3") || strings.Contains(b, "m[i] = i") {
 			// allocation-heavy: also with the block-maximum gas, so that the allocation limit (not gas) is the bound
 			cs = append(cs, Case{ID: fmt.Sprintf("resource-maxgas/%02d:%s", i, oneLine(b)), Kind: kindRun, Src: mainWrap("", b), Gas: 3_000_000_000})
 		}
 		// the same body in a package-level initialiser of a realm (runs at AddPackage time)
-		cs = append(cs, Case{ID: fmt.Sprintf("resource-init/%02d:%s", i, oneLine(b)), Kind: kindAddPkg, Src: "package pkg\n\nfunc main() {\n" + b + "\n}\n\nfunc init() { main() }\n", Gas: 50_000_000})
+		cs = append(cs, Case{ID: fmt.Sprintf("resource-init/%02d:%s", i, oneLine(b)), Kind: kindAddPkg, Src: "package pkg\n\nfunc main() {\n" + b + "\n}\n\nfunc init() { main() }\n", Gas: 20_000_000})
 	}
 	return cs
 }
